@@ -409,7 +409,7 @@ static void run_scenario(const scen_t *s)
             pixman_image_set_repeat(p->im.img, (p->needs_repeat && rep == PIXMAN_REPEAT_NONE) ? PIXMAN_REPEAT_NORMAL : rep);
             set_xf(p->im.img, &XF[s->xf], p->shift);
             set_filter(p->im.img, s->fil);
-            if (s->role == 1 && ca_mask) pixman_image_set_component_alpha(p->im.img, 1);
+            if (s->role == 1 && ca_mask) pixman_image_set_component_alpha(p->im.img, ph_truthy((uint64_t)k + (uint64_t)s->rq));
         }
         if (s->clip && p->im.img) {
             /* the same clip on every presentation, in the image's own coordinates, cutting the request in two places */
@@ -417,7 +417,7 @@ static void run_scenario(const scen_t *s)
             pixman_box32_t cb[2] = { { ox + 1, oy, ox + rq->w - 1, oy + 1 }, { ox, oy + 1, ox + (rq->w + 1) / 2, oy + rq->h } };
             pixman_region32_t cr; pixman_region32_init_rects(&cr, cb, 2);
             pixman_image_set_clip_region32(p->im.img, &cr); pixman_region32_fini(&cr);
-            pixman_image_set_has_client_clip(p->im.img, 1); pixman_image_set_source_clipping(p->im.img, 1);
+            pixman_image_set_has_client_clip(p->im.img, ph_truthy((uint64_t)s->op + (uint64_t)k)); pixman_image_set_source_clipping(p->im.img, ph_truthy((uint64_t)s->ctx + (uint64_t)k + 1));
         }
         if (s->clip && !p->im.img) continue;           /* "no mask" cannot carry the clip */
         if (s->role == 0) { src = p->im.img; mask = cmask.img; d = &cdst; }
